@@ -80,6 +80,9 @@ class C13(Prop):
         # is still at most buffer-size residues, whatever the line width of the file
         yield {"gen": "memory/wide-lines", "kind": "memory", "n": 300_000 if tier == "quick" else 2_000_000, "buf": 499,
                "seed": rng.randrange(10**6), "width": 5000}
+        yield {"gen": "memory/many-short-fragments", "kind": "memory", "n": 300_000 if tier == "quick" else 2_000_000, "buf": 1000,
+               "seed": rng.randrange(10**6), "pieces": 1000}
+        yield {"gen": "memory/cli", "kind": "memcli", "n": 6_000_000 if tier == "quick" else 24_000_000, "seed": rng.randrange(10**6)}
         yield {"gen": "memory/unwrapped", "kind": "memory", "n": 300_000 if tier == "quick" else 2_000_000, "buf": 1000,
                "seed": rng.randrange(10**6), "width": 0}
 
@@ -125,7 +128,42 @@ class C13(Prop):
                 fi = ctx.fasta_index(ix["idx"], b)
                 outs.append(F.stream_impl(fi, case["scaffolds"], case["L"]))
             return {"index": ix, "outs": outs}
+        if k == "memcli":
+            return self.run_memcli(case)
         return self.run_memory(case)
+
+    def run_memcli(self, case):
+        """pretext-to-asm itself, FASTA in and FASTA out, on one long gapless record shown whole in the map"""
+        import random
+        import shutil
+
+        from .. import cli_util as C
+        from .. import core
+
+        r = random.Random(case["seed"])
+        n = case["n"]
+        root = core.BUILD / self.pid / "memcli"
+        shutil.rmtree(root, ignore_errors=True)
+        (root / "out").mkdir(parents=True)
+        block = "".join(r.choices("ACGT", k=6000))
+        with (root / "in.fa").open("w") as fh:
+            fh.write(">chr_long\n")
+            for _ in range(n // 6000):
+                for i in range(0, 6000, 60):
+                    fh.write(block[i : i + 60] + "\n")
+            fh.write(">small\nACGTACGTAC\n")
+        n = (n // 6000) * 6000
+        (root / "in.pretext.agp").write_text(
+            "##agp-version\t2.1\n# HiC MAP RESOLUTION: 1000.000000 bp/texel\n"
+            f"Scaffold_1\t1\t{n}\t1\tW\tchr_long\t1\t{n}\t+\n")
+        tracemalloc.start()
+        res = C.run_cli(["-a", root / "in.fa", "-p", root / "in.pretext.agp", "-o", root / "out" / "x.fa", "--no-write-log"])
+        _, peak = tracemalloc.get_traced_memory()
+        tracemalloc.stop()
+        fas = [q for q in (root / "out").iterdir() if q.name.endswith(".fa")]
+        size = sum(q.stat().st_size for q in fas) if fas else None
+        shutil.rmtree(root, ignore_errors=True)
+        return {"exit": res.exit_code, "peak": peak, "fasta_bytes": size, "n": n}
 
     def run_memory(self, case):
         import random
@@ -141,8 +179,14 @@ class C13(Prop):
         _, peak_index = tracemalloc.get_traced_memory()
         tracemalloc.stop()
         peaks = {}
-        for label, rows in (("fragment", [Fragment("big", 1, n, 1)]), ("revfragment", [Fragment("big", 1, n, -1)]),
-                            ("gap", [Gap(n, "scaffold")])):
+        plans = [("fragment", [Fragment("big", 1, n, 1)]), ("revfragment", [Fragment("big", 1, n, -1)]),
+                 ("gap", [Gap(n, "scaffold")])]
+        if case.get("pieces"):
+            # the same chromosome as a run of fragments none longer than the buffer, alternating strands
+            pc = case["pieces"]
+            plans = [("scaffold of short fragments",
+                      [Fragment("big", a, min(n, a + pc - 1), 1 if (a // pc) % 2 == 0 else -1) for a in range(1, n + 1, pc)])]
+        for label, rows in plans:
             fi = FastaIndex(ctx.path, buffer_size=buf)
             fi.index = idx
             fi.fasta_fileandle  # open outside the measured region
@@ -158,6 +202,8 @@ class C13(Prop):
 
     def term(self, case, obs):
         k = case["kind"]
+        if k == "memcli":
+            return []
         if k == "gapchunks":
             def t(names):
                 o = "None" if "err" in obs else "(Some " + listlit(obs["chunks"], names) + ")"
@@ -232,6 +278,15 @@ class C13(Prop):
                 return f"well-formed FASTA rejected: {obs['index']}"
             if any(o != obs["outs"][0] for o in obs["outs"][1:]):
                 return f"streamed bytes differ between buffer sizes {case['bufs']}"
+            return None
+        if case["kind"] == "memcli":
+            if obs["exit"] != 0 or not obs["fasta_bytes"] or obs["fasta_bytes"] < obs["n"]:
+                return f"pretext-to-asm FASTA -> FASTA failed: {obs}"
+            # 16 x the default buffer of 250 000 residues: room for the indexer's buffer, its match list and
+            # the interpreter's own allocations, far below a whole chromosome held in memory
+            if obs["peak"] > 4_000_000:
+                return (f"pretext-to-asm writing a {obs['n']} bp gapless chromosome as FASTA peaked at {obs['peak']} traced bytes "
+                        f"(the stream buffer is 250000 residues)")
             return None
         buf = case["buf"]
         if obs["length"] != case["n"]:
